@@ -261,7 +261,7 @@ def c13(r):
 
 def c14(r):
     r.tlc_exhaustive("BlockStore.tla", "BlockStore.cfg", workers=4)
-    for cfg in ("BlockStore_stale.cfg", "BlockStore_nonatomic.cfg"):
+    for cfg in ("BlockStore_stale.cfg", "BlockStore_nonatomic.cfg", "BlockStore_commitonerror.cfg"):
         ok, _ = r.tlc_exhaustive("BlockStore.tla", cfg, workers=4, expect_ok=False)
         if ok:
             raise Inconclusive(cfg + " should reproduce its counterexample (stale hash index / block save that is not all-or-nothing)")
